@@ -314,6 +314,13 @@ func Run(r *ev.Run) {
 				}
 			}
 		}
+		// ... and the same keys given through an option value that was made earlier, from a slice that held other keys then and
+		// was refilled in place since
+		if p == nil && o == want && len(keys) >= 1 {
+			if o3, p3 := runSplit(slices.Clone(keys), ks[c.Target[0]], c.AEAD, c.Retry, echx.ReusedOption, variantOf(c.Target)); p3 != nil || o3 != o {
+				r.Violation("outcome-depends-on-when-the-option-was-made:"+kind, fmt.Sprintf("key list %q given through a WithKeys option value made before the caller's slice was refilled with these keys behaves differently from WithKeys(list) made now:\n got  %.300s (panic %v)\n want %.300s", c.List, o3, p3, o), c)
+			}
+		}
 		oc := "rejected/passthrough"
 		if strings.HasPrefix(o, "accepted=true") {
 			oc = "accepted"
